@@ -147,6 +147,18 @@ fn enumerate_faults(base: &v1::Instance) -> Vec<Fault> {
             }
         }
     }
+    // an id that is used, not defined as a variable, but present as a key of the dependency map (as left behind when a
+    // substituted variable is dropped from the variable list): still undefined
+    v.push(fault("undefined-id objective + dependency key of the same id".into(), "undefined-id@objective/also-a-dependency-key", true, None, |m| {
+        add_undefined(&mut m.objective, UNDEF, 1);
+        m.decision_variable_dependency.insert(UNDEF, crate::mk::fconst(1.0));
+    }));
+    for i in 0..na {
+        v.push(fault(format!("undefined-id constraint[{i}] + dependency key of the same id"), "undefined-id@constraint/also-a-dependency-key", true, None, move |m| {
+            add_undefined(&mut m.constraints[i].function, UNDEF, 1);
+            m.decision_variable_dependency.insert(UNDEF, crate::mk::fconst(1.0));
+        }));
+    }
     // required fields
     v.push(fault("sense-unspecified".into(), "unset-sense", false, Some(("UnspecifiedEnum", "sense")), |m| m.sense = 0));
     v.push(fault("objective-absent".into(), "unset-objective", false, Some(("MissingField", "objective")), |m| m.objective = None));
@@ -395,8 +407,10 @@ fn check_faulted(base: &v1::Instance, faults: &[&Fault], ctx: &mut Ctx) -> PResu
                 let (c, t) = f.typed.unwrap();
                 class == c && top.as_ref().map(|p| p.0 == "ommx.v1.Instance" && p.1 == t).unwrap_or(false)
             });
-            // with an un-asserted fault in the mix (undefined id) any of the listed classes is fine
-            if !matches_one {
+            // with an un-asserted fault in the mix (an undefined id somewhere) the conversion may stop at that one
+            // first, with whatever class it reports for it
+            let unasserted_in_mix = faults.iter().any(|f| f.typed.is_none());
+            if !matches_one && !unasserted_in_mix {
                 return fail(
                     format!("C08/typed-wrong-report/{}", asserted[0].kind),
                     format!("Instance::try_from reported {class} at path {path:?}; expected one of {:?}: {}", asserted.iter().map(|f| f.typed.unwrap()).collect::<Vec<_>>(), what()),
@@ -425,7 +439,7 @@ impl Property for C08 {
         let mut v: Vec<String> = [
             "dup-variable-id", "dup-constraint-id@active", "dup-constraint-id@active/removed", "dup-constraint-id@removed", "undefined-id@objective", "undefined-id@constraint", "undefined-id@removed", "unset-sense", "unset-objective",
             "unset-objective-oneof", "unset-constraint-function", "unset-constraint-function-oneof", "unset-equality", "unset-removed-constraint", "unset-removed-function", "unset-removed-function-oneof", "unset-removed-equality", "unset-kind",
-            "bound-nan-lower", "bound-nan-upper", "bound-lower=+inf", "bound-upper=-inf", "bound-lower>upper", "bound-lower>upper-by-one-ulp", "undefined-id@objective/zero-coefficient", "undefined-id@objective/aliases-defined-id-mod-2^32", "hint-undefined-constraint", "hint-added-undefined-constraint", "hint-added-undefined-constraint@no-active-constraints", "hint-undefined-variable", "hint-repeated-variable", "hint-repeated-big-m", "dependency-key-undefined",
+            "bound-nan-lower", "bound-nan-upper", "bound-lower=+inf", "bound-upper=-inf", "bound-lower>upper", "bound-lower>upper-by-one-ulp", "undefined-id@objective/zero-coefficient", "undefined-id@objective/aliases-defined-id-mod-2^32", "undefined-id@objective/also-a-dependency-key", "hint-undefined-constraint", "hint-added-undefined-constraint", "hint-added-undefined-constraint@no-active-constraints", "hint-undefined-variable", "hint-repeated-variable", "hint-repeated-big-m", "dependency-key-undefined",
             "dependency-function-unset",
         ]
         .iter()
